@@ -20,19 +20,19 @@ CHECKS = {
              note="'unanswered' = reply event not yet delivered to the controller; reference cluster model as in C01.", ref="DESIGN.md 3 C04"),
  "C05": dict(cat="fault_enumeration", engine="vcluster", technique="exhaustive fault enumeration (every task body point x {raise, sys.exit, kill}; every helper process x every scheduler step) on the whole runtime executed in one process under a virtual scheduler and clock",
              text="The real controller, Bridge, Executor, worker entrypoint, DataServer and shm server run as virtual processes over fake zmq/UDP/time/multiprocessing; for each job x cluster shape one fault per execution is injected at every enumerated point; the run must end (return correct values or raise) within 1000 virtual seconds, executors must exit and no helper process or shared-memory segment may remain.",
-             note="Default schedule only in quick; kills are modelled by unwinding the virtual process with its seam calls disabled; OS-level signal/zombie semantics outside the model; kills start once run() began.", ref="DESIGN.md 2.3, 3 C05"),
+             note="Default schedule only in quick; faults: task body raise / sys.exit(3) / sys.exit() / kill at every body point, kill of every helper at every step once run() began, SIGTERM to the shm server (its registered handler runs), failure of every read a data server makes of a dataset it is asked to send; jobs with a 300-virtual-second task bound the time from fault to end of run (120 s). Kills unwind the virtual process with its seam calls disabled; zombie semantics and real time are outside the model and touched only by the real-process validation runs (repeated before they count).", ref="DESIGN.md 2.3, 3 C05"),
  "C06": dict(cat="model_checking", engine="bfs", technique="explicit-state BFS to closure over send/deliver/drop/duplicate/retry-timer histories of two real ReliableSender+Listener endpoints and of the stepped real Bridge/Executor receive loops; exhaustive frame-sequence enumeration for framing",
              text="All reachable states within a fault budget (drops/duplications) and an early-timer budget are enumerated on the real sender/listener code with max retries lowered to 3; in every state a fair closure (no more faults) must end with each message handed up exactly once or the sender raising, and a black-hole closure must end with the sender raising; the same for the real Bridge.recv_events/Executor.recv_loop stepped one pass at a time; all 781 frame sequences of length <=4 are fed to Listener._recv_one.",
-             note="max_retries_per_message lowered by the harness; zmq reconnect/HWM not modelled; faults apply to frames between controller and executor only.", ref="DESIGN.md 3 C06"),
+             note="max_retries_per_message lowered by the harness; zmq reconnect/HWM not modelled; topologies pair (X<->Y) and fan-in (X->Y<-Z); the sender's loop also comes round 1 ms after each (re)transmission; stepped loops include a worker death and the controller's shutdown exchange under every single frame loss; faults apply to frames between controller and executor only.", ref="DESIGN.md 3 C06"),
  "C07": dict(cat="model_checking", engine="bfs", technique="explicit-state BFS to closure over real DataServer objects stepped one loop pass at a time (issue/deliver/drop/duplicate/complete-future/retry-timer), end-state oracle at every terminal state",
              text="For each scenario (transfer, redundant transfers, transfer+fetch, purge at target after the announcement, purge at source during a retry read, transfer to a holder, two datasets) all interleavings within a fault budget are enumerated to closure on the real DataServer, Listener, shm client/server/Manager code; terminal states must hold exactly one byte-identical copy, one announcement, one fetched payload, and nothing may be stored again after a processed purge.",
-             note="Purges reach a data server only as the executor/controller can send them (after announcement / after the transfer was answered); futures complete at explorer-chosen steps; shm capacity ample.", ref="DESIGN.md 3 C07"),
+             note="Purges reach a data server only as the executor/controller can send them (after announcement / after the transfer was answered); futures complete at explorer-chosen steps; scenarios include sibling outputs of one task, a target store that refuses the payload, early resend timers, and two one-batch enumerations (retry read + purge; late payload of a redundant transfer + another frame).", ref="DESIGN.md 3 C07"),
  "C08": dict(cat="model_checking", engine="bfs", technique="explicit-state BFS over operation histories of the real shm client/server/Manager/Disk bodies with capacity invariants in every state; conformance replay on real shared memory and threads",
              text="Every history (bounded depth, or closure where reached) of allocate/finish-write/get/finish-read/purge and disk-job completions (ok or failing at two points) is executed on the real stack; after every event the ground-truth segment bytes, the protocol-derived resident total and the free space reported over the protocol are compared, and admission answers are checked.",
-             note="Disk job body+callback atomic at the chosen completion step; purge in transitional states follows the store; fake SharedMemory validated against the real one by replaying histories.", ref="DESIGN.md 3 C08"),
+             note="Configurations: disk job atomic at its completion step; split (I/O and result delivery are two events); eager (jobs launched by the next request complete before it returns); purge_mid (a purge handled between a page-out job's attach and its unlink); trim (configured capacity above what the machine offers); stale_writers; rewrite (a purged key written again while its first writer is open); three-chunk sizes. Purge in transitional states follows the store; fake SharedMemory validated against the real one by replaying histories.", ref="DESIGN.md 3 C08"),
  "C09": dict(cat="model_checking", engine="bfs", technique="explicit-state BFS over operation histories of the real shm stack with byte-pattern, protection and bounded-liveness oracles in every state",
              text="Same state space as C08 with distinct byte patterns really written/read through segments and page-out/page-in round trips; monitors for read-before-close, page-out/unlink during read, delayed purge; in every reachable state a bounded liveness closure (complete jobs, retry) must end in a grant for every satisfiable request.",
-             note="Staleness windows unreachable; completion atomicity as C08.", ref="DESIGN.md 3 C09"),
+             note="The 15-minute staleness windows are reached through an explicit 16-minute jump (readers; writers in the stale_writers configurations); configurations as C08; the liveness closure completes all jobs successfully and defers to the safety monitors.", ref="DESIGN.md 3 C09"),
  "C10": dict(cat="exploration", engine="enumeration", technique="bounded-exhaustive enumeration of node arities/argument layouts/output counts through the real graph2job and runner.run against direct evaluation of the graph",
              text="Every argument layout (0-3 slots x every input subset x 0-2 keyword statics), every output count N in {1,2,3,9,10,11,12} with several naming styles (hand-built and via fluent yields), and every miscount N-2..N+2 is lowered with the real graph2job and executed task by task through the real runner/Memory/serde; stored datasets are compared with direct evaluation of the graph.",
              note="Ambiguous payloads (static string equal to an input name, one input twice in args) excluded as the code documents.", ref="DESIGN.md 3 C10"),
@@ -51,8 +51,8 @@ CHECKS = {
  "C15": dict(cat="exploration", engine="enumeration", technique="bounded-exhaustive enumeration of operations x arities x shapes x dtypes x axes x backends against NumPy, and of every batch partition for every function marked batchable",
              text="Each backend operation is called on plain arrays, DataArrays and Datasets for every argument count, shape, dtype and axis/dim/index of the alphabet and compared with NumPy; every function carrying the batchable marker (found by scanning Backend) is checked for f(f(b1),..,f(bk)) == f(all) over every partition of up to 5 arguments.",
              note="earthkit-data FieldList backend not importable here; values are small positive integers.", ref="DESIGN.md 3 C15"),
- "C16": dict(cat="exploration", engine="enumeration", technique="bounded-exhaustive enumeration of all DAGs (n<=5/6) x 4 variants against a networkx reference model",
-             text="Every edge set over <=5 (quick) / <=6 (thorough) labelled tasks in four variants goes through the real precompute() and is compared field by field with a networkx reference (components, sources, edge projections, depth, value, nearest-common-descendant distances).",
+ "C16": dict(cat="exploration", engine="enumeration", technique="bounded-exhaustive enumeration of all DAGs (n<=5/6) x 6 variants against a networkx reference model",
+             text="Every edge set over <=5 (quick) / <=6 (thorough) labelled tasks in six variants (single/multi outputs, multi-edges, reversed declaration order, one dataset into two parameters, placeholder outputs) goes through the real precompute() and is compared field by field with a networkx reference (components, sources, edge projections, depth, value, nearest-common-descendant distances).",
              note="Only the Python fallback of nearest_common_descendant is reachable (coptrs not installed); DAGs above 6 tasks outside the bound.", ref="DESIGN.md 3 C16"),
  "C17": dict(cat="exploration", engine="enumeration", technique="bounded-exhaustive enumeration of field-alphabet products per message class through the real encoders/decoders",
              text="Per message class the full product of boundary alphabets (sizes at and above 2^32, empty/long strings, out-of-domain values) through the real shm codec, pickle+multipart framing into the real Listener, controller reports, gateway client encoder/decoder pairs and JobInstance JSON; structural comparison.",
